@@ -97,24 +97,42 @@ func runPool(t *testing.T, c *choice.Stream, r *Result, opt RunOpt, lean bool) {
 		for u := range progs {
 			n := c.Range("prog.len", 1, 4)
 			for i := 0; i < n; i++ {
-				switch c.Weighted("prog.kind", 6, 1, 1) {
+				switch c.Weighted("prog.kind", 12, 2, 2, 1, 3) {
 				case 1:
 					progs[u] = append(progs[u], poolOp{Op: "pool-do"})
 					continue
 				case 2:
 					progs[u] = append(progs[u], poolOp{Op: "pool-ping"})
 					continue
+				case 3:
+					// many acquire/release cycles: handles of long ago stay around in the caller's hands
+					progs[u] = append(progs[u], poolOp{Op: "churn", N: c.Pick("churn.n", 5, 30, 62, 63, 64, 65, 126, 127, 128, 129, 200)})
+					faulty = true
+					continue
+				case 4:
+					// Release once more on a handle that was released earlier
+					progs[u] = append(progs[u], poolOp{Op: "stale-release", N: c.Draw("stale.which", 4)})
+					faulty = true
+					continue
 				}
 				progs[u] = append(progs[u], poolOp{Op: "acquire"})
 				k := c.Range("use.len", 0, 3)
 				for j := 0; j < k; j++ {
-					op := []string{"do-ok", "do-exc", "do-cut", "do-cancel", "ping", "sleep"}[c.Weighted("use.op", 5, 2, 2, 1, 2, 3)]
+					op := []string{"do-ok", "do-exc", "do-cut", "do-cancel", "ping", "sleep", "stale-release"}[c.Weighted("use.op", 5, 2, 2, 1, 2, 3, 2)]
 					po := poolOp{Op: op}
+					if op == "stale-release" {
+						po.N = c.Draw("stale.which", 4)
+					}
 					if op == "sleep" {
 						po.Sleep = sec("sleep", 1, 2, 5, 12)
 					}
 					if op != "do-ok" && op != "ping" {
 						faulty = true
+					}
+					if op == "stale-release" && j == 0 {
+						// give the held handle something to do afterwards, so that a second holder is observable
+						progs[u] = append(progs[u], po, poolOp{Op: "sleep", Sleep: time.Second}, poolOp{Op: "do-ok"})
+						continue
 					}
 					progs[u] = append(progs[u], po)
 				}
@@ -368,8 +386,31 @@ func runPool(t *testing.T, c *choice.Stream, r *Result, opt RunOpt, lean bool) {
 						}
 						return "OK"
 					}
+					var released []*chpool.Client // handles this user has given back
 					for _, op := range prog {
 						switch op.Op {
+						case "churn":
+							if cl != nil {
+								continue
+							}
+							for k := 0; k < op.N; k++ {
+								actx, cancel := context.WithTimeout(ctx, 30*time.Second)
+								x, err := pool.Acquire(actx)
+								cancel()
+								if err != nil {
+									break
+								}
+								x.Release()
+								if len(released) < 8 {
+									released = append(released, x)
+								}
+							}
+							r.Fire("churn")
+						case "stale-release":
+							if len(released) > 0 {
+								released[op.N%len(released)].Release()
+								r.Fire("stale_release")
+							}
 						case "sleep":
 							time.Sleep(op.Sleep)
 							e.Sim.Yield("user.sleep")
@@ -428,6 +469,9 @@ func runPool(t *testing.T, c *choice.Stream, r *Result, opt RunOpt, lean bool) {
 									e.Sim.Yield("user.release-again")
 								}
 								cl.Release()
+							}
+							if len(released) < 8 {
+								released = append(released, cl)
 							}
 							cl, iv = nil, nil
 						default:
